@@ -381,8 +381,8 @@ def rule_refusals(ctx: Ctx, rep: Report) -> None:
     cs = refusal_constraints(ctx, tp)
     rep.ob(rule, "taproot:hash_type", any(c.op == "not in" and c.value == SPEC.TAPROOT_HASH_TYPES for c in cs), tp.where(), "hashtype not in SIG_HASH_TYPES refused")
     g = ctx.cfg(tp)
-    s = [n for t, pol, n in ctx.refusals(tp) if "len(" in norm(t) and ".vout" in norm(t) and ">=" in norm(t) and pol]
-    oks = bool(s) and any("== SINGLE" in t and p for t, p in g.facts()[s[0].id])
+    s = [c for c in cs if ((c.op == ">=" and ".vout" in str(c.value_text) and "len(" in str(c.value_text)) or (c.op == "<=" and ".vout" in str(c.subject) and "len(" in str(c.subject))) and not c.from_fact]
+    oks = any(any(("== SINGLE" in str(t) or "SINGLE ==" in str(t)) and p for t, p in c.facts) for c in s)
     rep.ob(rule, "taproot:single_without_output", oks, tp.where(), "SINGLE with input_index >= len(vout) refused")
     st = ctx.func(f"{SH}._serialized_spend_type")
     c2 = refusal_constraints(ctx, st)
